@@ -23,7 +23,7 @@ RULE = ("workloads W1 cold first call, W2 warm call + miss, W3 call after the fu
         "pages, W10 func_code.py longer than a page; a case is (workload, crash point): SIGKILL before the k-th mutating "
         "file-system call under the cache directory for every k, after the last one, and after each page-boundary prefix "
         "of every write crossing a 4096-byte file offset; each crashed directory is then recovered twice in fresh "
-        "processes (plain Memory, and with expires_after(days=1)); distinct_nontrivial counts distinct (workload, crash "
+        "processes (plain Memory, and with expires_after(days=1)); in the thorough tier a third of them are recovered by a process that is itself killed at every second of its own mutating calls, and recovered again; distinct_nontrivial counts distinct (workload, crash "
         "point, crash mode) whose process was really killed by the shim")
 ASSUMPTIONS = [
     "crash model: process death on a local file system - directory operations atomic, torn writes at page granularity",
@@ -34,7 +34,7 @@ ASSUMPTIONS = [
 EXHAUSTIVE = {"quick": True, "thorough": True}
 SHARDS = {"quick": 12, "thorough": 14}
 FLOORS = {"quick": {"crash_points": 200, "killed_by_shim": 200, "recoveries": 400, "torn_write_points": 15},
-          "thorough": {"crash_points": 250, "killed_by_shim": 250, "recoveries": 500, "torn_write_points": 20, "strace_crosschecks": 10}}
+          "thorough": {"crash_points": 250, "killed_by_shim": 250, "recoveries": 500, "torn_write_points": 20, "strace_crosschecks": 10, "second_order_crash_points": 300}}
 
 QUICK_W = ["W1", "W3", "W4", "W6", "W9"]
 ALL_W = ["W1", "W2", "W3", "W4", "W5", "W6", "W7", "W8", "W9", "W10"]
@@ -186,12 +186,51 @@ def run_case(case, ctx):
                         ctx.violation(key, f"fresh process after a kill {mode} {ev['op']} of {ev['path'].rsplit('/', 2)[-1]} ({w}, call #{k}): "
                                            f"cached call raised {e['type']}: {e['msg']} at {e['where']}", dict(desc, phase=phase, error=e))
                 shutil.rmtree(d2, ignore_errors=True)
+            if ctx.tier == "thorough" and (k + case["part"]) % 3 == 0:
+                second_order(w, d, work, desc, ctx)
             shutil.rmtree(d, ignore_errors=True)
         if case["part"] == 0:
             ctx.sample(dict(workload=w, mutating_calls=[f"{e['op']} {e['path'].rsplit('/', 1)[-1][:40]} {e['arg'] if e['op'] == 'write' else ''}".strip() for e in evs][:40],
                             crash_points=len(plan)))
     finally:
         shutil.rmtree(work, ignore_errors=True)
+
+
+def second_order(w, crashed, work, first, ctx):
+    """the repair of a crashed directory is itself killed at each of its mutating calls; the directory must still recover"""
+    dl = crashed + ".l2"
+    clone(crashed, dl)
+    logf = dl + ".log"
+    r = run_phase(w, "recover", dl, dict(LD_PRELOAD=harness.SHIM, VSHIM_ROOT=os.path.join(dl, "cache"), VSHIM_LOG=logf))
+    shutil.rmtree(dl, ignore_errors=True)
+    if not r["result"]:
+        return
+    try:
+        evs = read_log(logf)
+        os.unlink(logf)
+    except OSError:
+        return
+    for e in evs[::2]:
+        d2 = crashed + f".x{e['n']}"
+        clone(crashed, d2)
+        r = run_phase(w, "recover", d2, dict(LD_PRELOAD=harness.SHIM, VSHIM_ROOT=os.path.join(d2, "cache"), VSHIM_CRASH_AT=e["n"], VSHIM_CRASH_MODE="before"))
+        ctx.evaluated()
+        if r["rc"] != -9:
+            shutil.rmtree(d2, ignore_errors=True)
+            continue
+        ctx.count("second_order_crash_points")
+        ctx.sig((w, first["crash_at"], first["mode"], "then", e["n"]))
+        rr = run_phase(w, "recover_cb", d2)
+        res = rr["result"]
+        desc = dict(first, second_crash=dict(at=e["n"], op=e["op"], path=e["path"]))
+        if res is None:
+            ctx.violation("recovery-process-died:second-order", f"after {desc}: recovery exited rc={rr['rc']}: {rr['err'][-200:]}", desc)
+        elif res["bad_final_files"] or res["error"]:
+            err = res["error"] or {}
+            key = (f"{err.get('type')}@{(err.get('where') or ['?'])[-1]}" if err else "incomplete-final-file") + ":second-order"
+            ctx.violation(key, f"crash {first['mode']} call #{first['crash_at']} of {w}, then the recovering process killed before its {e['op']} of "
+                               f"{e['path'].rsplit('/', 1)[-1]}: {res['bad_final_files'][:1] or err}", desc)
+        shutil.rmtree(d2, ignore_errors=True)
 
 
 MUTATING_SYSCALLS = "open,openat,creat,mkdir,mkdirat,rename,renameat,renameat2,unlink,unlinkat,rmdir,write,pwrite64,writev,ftruncate,truncate,link,linkat,symlink,symlinkat,utimensat"
